@@ -73,7 +73,14 @@ Theorem C14_remove_keeps_partition :
   forall d fl c cs, TInvP d fl (c :: cs) -> TInvP (free_chain d c) (rev c ++ fl) cs.
 Proof. exact free_chain_inv. Qed.
 
-(* Every table reachable from a fresh one by storing values (in any number of slots) and removing live values,
+(* Replacing a value by one that needs another number of slots (overwrite_chain on the existing chain): the old
+   slots are reused in order; a longer value takes further slots from the allocator, a shorter one ends earlier
+   and the rest of the old chain is cleared; the table stays partitioned and only this chain changes. *)
+Theorem C14_replace_keeps_partition :
+  forall d fl c cs k, TInvP d fl (c :: cs) -> let '(d', c') := areplace d c k in exists fl', TInvP d' fl' (c' :: cs).
+Proof. exact areplace_inv. Qed.
+
+(* Every table reachable from a fresh one by storing values (in any number of slots), replacing and removing live values,
    in any order, is partitioned, and its chains are exactly the live values. astep is the function the
    allocator correspondence runs against the implementation (kind 114). *)
 Theorem C14_reachable_tables_partitioned :
@@ -82,6 +89,10 @@ Proof. exact reachable_tables_partitioned. Qed.
 
 (* non-vacuity: a 3-slot value, a 1-slot value, the first removed, a 2-slot value stored in its freed slots
    (last part first), one freed slot left on the list; the checker accepts every table on the way *)
+Example C14_replace_history :
+  let st := fold_left astep [AStore 2; AStore 0; AReplace 0 4; AReplace 0 1] (empty_table, []) in
+  snd st = [[1; 2]; [4]] /\ free_head (fst st) = 6 /\ filled (fst st) = 7 /\ t_ok (check_table (fst st)) = true.
+Proof. vm_compute. repeat split; reflexivity. Qed.
 Example C14_chain_history :
   let st := fold_left astep [AStore 2; AStore 0; ARemove 0; AStore 1] (empty_table, []) in
   snd st = [[4]; [3; 2]] /\ free_head (fst st) = 1 /\ filled (fst st) = 5 /\ t_ok (check_table (fst st)) = true.
@@ -117,4 +128,5 @@ Print Assumptions C14_alloc_extends_only_when_list_empty.
 Print Assumptions C14_free_pushes_on_free_list.
 Print Assumptions C14_store_keeps_partition.
 Print Assumptions C14_remove_keeps_partition.
+Print Assumptions C14_replace_keeps_partition.
 Print Assumptions C14_reachable_tables_partitioned.
